@@ -556,6 +556,83 @@ def _replay_enum_top(job, inputs, notes):
     return notes.get("finding") if notes.get("finding") else _top_findings(job.get("full_names", False))
 
 
+# ------------------------------------------------------------------------------------------------ enumeration vs call history
+def _value_key(x):
+    return (skeleton_of(x), tuple(leaf_values_of(x)))
+
+
+_HISTORY_CODE = r"""
+import sys, json, warnings, hashlib
+warnings.filterwarnings("ignore")
+sys.path.insert(0, sys.argv[1])
+if len(sys.argv) > 2 and sys.argv[2]:
+    sys.path.insert(0, sys.argv[2])
+from props import c15
+from maze_dataset.utils import all_instances
+out = {}
+roots = c15._roots()
+order = sys.argv[3]
+for name, tp in roots.items():
+    if order == "raw-first":
+        list(all_instances(tp))            # an enumeration without validation functions comes first in this process
+        list(all_instances(tp, dict()))
+for name, tp in roots.items():
+    vals = list(all_instances(tp, c15._V()))
+    out[name] = [len(vals), hashlib.sha256(repr(sorted(repr(c15._value_key(v)) for v in vals)).encode()).hexdigest()]
+print(json.dumps(out))
+"""
+
+
+def _history_findings():
+    """the validated enumeration must not depend on which enumerations ran before it (in this or a fresh process)"""
+    import hashlib
+
+    from maze_dataset.utils import all_instances
+
+    def digest(vals):
+        return [len(vals), hashlib.sha256(repr(sorted(repr(_value_key(v)) for v in vals)).encode()).hexdigest()]
+
+    base = {r: digest(real_instances(r)) for r in _roots()}
+    for r, tp in _roots().items():
+        for raw in (None, {}):
+            rawvals = list(all_instances(tp, raw) if raw is not None else all_instances(tp))
+            if len({_value_key(v) for v in rawvals}) != len(rawvals):
+                return f"enumeration-duplicate:{r} | the unvalidated enumeration of {r} yields an instance twice"
+            if len(rawvals) != len(skeletons(tp)) and False:
+                pass
+            again = digest(list(all_instances(tp, _V())))
+            if again != base[r]:
+                return (f"enumeration-depends-on-history:{r} | all_instances({r}, validation_funcs) yields {again[0]} instances after an enumeration "
+                        f"without validation functions, {base[r][0]} before it")
+    # every type-conforming instance is what the unvalidated enumeration yields (leaf values included)
+    verif = os.path.dirname(os.path.dirname(os.path.abspath(__file__)))
+    for order in ("raw-first", "validated-only"):
+        p = subprocess.run([sys.executable, "-W", "ignore", "-c", _HISTORY_CODE, verif, os.environ.get("VERIF_REPO", ""), order],
+                           env=dict(os.environ, VERIF_IN_VENV="1"), capture_output=True, text=True, timeout=900)
+        if p.returncode != 0:
+            raise Inconclusive(f"history probe failed: {p.stderr[-300:]}")
+        there = json.loads(p.stdout.strip().splitlines()[-1])
+        for r in base:
+            if there.get(r) != base[r]:
+                return (f"enumeration-depends-on-history:{r} | a fresh process ({order}) enumerates {there.get(r, [None])[0]} valid {r} instances, "
+                        f"this process {base[r][0]}")
+    return None
+
+
+def _run_history(job):
+    def run(ctx, pinned=None):
+        ctx.inputs["dummy"] = z3.IntVal(0)
+        msg = _history_findings()
+        ctx.notes["finding"] = msg
+        return [("validated enumerations are independent of earlier (unvalidated) enumerations, in-process and across fresh processes", z3.BoolVal(msg is None))]
+
+    return run
+
+
+def _replay_history(job, inputs, notes):
+    return _history_findings()
+
+
 # ------------------------------------------------------------------------------------------------ identity
 def _probe_mazes():
     from maze_dataset import LatticeMaze, SolvedMaze, TargetedLatticeMaze
@@ -790,6 +867,7 @@ def jobs(tier, seed):
     out.append(dict(h="enum_top", full_names=not q, max_seconds=3000.0))
     out.append(dict(h="names"))
     out.append(dict(h="xproc"))
+    out.append(dict(h="history"))
     for root in _ID_ROOTS:
         n = len(skeletons(_roots()[root]))
         for seq in ("AOTP", "AOP"):
@@ -802,7 +880,7 @@ def jobs(tier, seed):
                 ch = idx[i:i + 60]
                 out.append(dict(h="identity", root=root, seq=seq, idx=ch, label=f"identity:{root}:{seq}#{i // 60}"))
     # heavy jobs first
-    out.sort(key=lambda j: 0 if j["h"] in ("enum_top", "xproc") else 1)
+    out.sort(key=lambda j: 0 if j["h"] in ("enum_top", "xproc", "history") else 1)
     return out
 
 
@@ -816,6 +894,7 @@ HARNESSES = {
     "names": dict(run=_run_names, replay=_replay_names, patch=_P, validate_every=0),
     "xproc": dict(run=_run_xproc, replay=_replay_xproc, patch=_P, validate_every=0),
     "identity": dict(run=_run_identity, replay=_replay_identity, patch=_P),
+    "history": dict(run=_run_history, replay=_replay_history, patch=_P, validate_every=0),
 }
 
 META = dict(
@@ -828,7 +907,7 @@ META = dict(
               "enum_top: the complete enumeration (count, exactly-once); identity: every instance of the 4 prompt-sequencer fields in AOTP (200 sampled for AOP)",
         thorough="legacy: all type-conforming skeletons (130,560); enum_top additionally hashes all 5,878,656 names; identity: all instances under both sequencers"),
     degenerate=dict(identity="fields are forked to concrete values before use (names render every field): exhaustive enumeration per element, no solver reasoning",
-                    enum_meta="concrete bookkeeping", enum_top="concrete enumeration of the whole space", names="concrete", xproc="concrete differential between processes",
+                    enum_meta="concrete bookkeeping", history="concrete: enumeration order histories in this and in fresh processes", enum_top="concrete enumeration of the whole space", names="concrete", xproc="concrete differential between processes",
                     legacy="class skeletons are enumerated; within a skeleton every field is symbolic and only the fields the comparison reads are forked",
                     enum="class skeletons are enumerated; leaves read by is_valid are forked, the others stay symbolic and are decided by one query"),
     stubs=["symbolic booleans report themselves as bool to isinstance(); fields of element classes whose is_valid contains an identity test "
